@@ -2,6 +2,9 @@
 //! predicates of DESIGN.md section 2.3, and the entry-point contracts of C18.
 use super::*;
 
+/// compile-time tier switch (set by the driver through the environment)
+pub(crate) const THOROUGH: bool = option_env!("VERIF_THOROUGH").is_some();
+
 pub(crate) mod h {
     //! helpers: everything here is loop-bounded by a constant so that CBMC never has to unwind a
     //! loop over a symbolic length (std `==` on slices calls `memcmp` with a symbolic length).
@@ -29,6 +32,21 @@ pub(crate) mod h {
         let mut b = [0u8; 4];
         let e: &str = c.encode_utf8(&mut b);
         str_eq_n::<4>(s, e)
+    }
+
+    /// XML 1.0 `Char` production.
+    pub(crate) fn xml_char(c: char) -> bool {
+        let u = c as u32;
+        u == 0x9
+            || u == 0xA
+            || u == 0xD
+            || (0x20..=0xD7FF).contains(&u)
+            || (0xE000..=0xFFFD).contains(&u)
+            || (0x10000..=0x10FFFF).contains(&u)
+    }
+
+    pub(crate) fn markup_significant(c: char) -> bool {
+        matches!(c, '<' | '>' | '&' | '\'' | '"')
     }
 
     // ---- validity predicates (type invariants used as preconditions) -----------------------
@@ -92,5 +110,76 @@ pub(crate) mod kh {
 
     pub(crate) fn any_cell() -> Cell {
         Cell::new(kani::any(), kani::any())
+    }
+}
+
+#[cfg(kani)]
+pub(crate) mod kg {
+    //! generators of symbolic values of the fragment types (all inputs are drawn up-front, so that
+    //! concrete playback feeds the same values natively)
+    use super::h::*;
+    use crate::fragment::{Arc, Circle, Line, Marker, MarkerLine, Rect};
+    use crate::{Cell, Point};
+
+    pub(crate) fn any_point() -> Point {
+        Point::new(kani::any(), kani::any())
+    }
+
+    /// lattice point with quarter-unit indices below `lim4` (coordinate below lim4/4)
+    pub(crate) fn any_grid_point(lim4: u32) -> Point {
+        let i: u32 = kani::any();
+        let j: u32 = kani::any();
+        kani::assume(i < lim4 && j < lim4);
+        Point::new(i as f32 * 0.25, j as f32 * 0.25)
+    }
+
+    pub(crate) fn any_line() -> Line {
+        Line::new_noswap(any_point(), any_point(), kani::any())
+    }
+
+    pub(crate) fn any_grid_line(lim4: u32) -> Line {
+        Line::new_noswap(any_grid_point(lim4), any_grid_point(lim4), kani::any())
+    }
+
+    pub(crate) fn any_circle() -> Circle {
+        Circle::new(any_point(), kani::any(), kani::any())
+    }
+
+    pub(crate) fn any_marker() -> Option<Marker> {
+        let k: u8 = kani::any();
+        match k % 8 {
+            0 => None,
+            1 => Some(Marker::Arrow),
+            2 => Some(Marker::ClearArrow),
+            3 => Some(Marker::Circle),
+            4 => Some(Marker::Square),
+            5 => Some(Marker::Diamond),
+            6 => Some(Marker::OpenCircle),
+            _ => Some(Marker::BigOpenCircle),
+        }
+    }
+
+    pub(crate) fn any_rect() -> Rect {
+        Rect { start: any_point(), end: any_point(), is_filled: kani::any(), radius: kani::any(), is_broken: kani::any() }
+    }
+
+    pub(crate) fn any_arc() -> Arc {
+        let mut a = Arc::new(Point::new(0.0, 0.0), Point::new(1.0, 1.0), 1.0);
+        a.start = any_point();
+        a.end = any_point();
+        a.radius = kani::any();
+        a.major_flag = kani::any();
+        a.sweep_flag = kani::any();
+        a
+    }
+
+    pub(crate) fn any_cell() -> Cell {
+        Cell::new(kani::any(), kani::any())
+    }
+
+    pub(crate) fn any_valid_cell() -> Cell {
+        let c = any_cell();
+        kani::assume(valid_cell(c));
+        c
     }
 }
